@@ -46,7 +46,7 @@ static std::optional<Failure> check_local(Run &R, const Bytes &L) {
             return Failure{"option-leaks-into-ascii-mode", g_case, std::string("is_") + ref::MODE_NAME[m] + "_local('" + show(L) + "') = " + std::to_string(rc[m]) + " in build " + VNAME[v] + " but " + std::to_string(base[m]) + " in o000"};
         if (v == 8 && rc[3] != base[3]) return Failure{"default-build-differs-from-all-off", g_case, "is_6531_local('" + show(L) + "') = " + std::to_string(rc[3]) + " in the no-variable build, " + std::to_string(base[3]) + " in o000"};
         bool got = rc[3] == 0;
-        if (!ascii && o.r5322 && qws) { R.count("not-judged(non-ascii+quoted-ws, RFC5322 build)"); continue; }
+        if (!ascii && ref::utf8_ok(L) && o.r5322 && qws) { R.count("not-judged(non-ascii+quoted-ws, RFC5322 build)"); continue; }
         ref::LocalOpts lo; lo.rfc20 = o.r20; lo.follow5322 = ascii ? o.r5322 : false;
         bool want = ref::local_ok(ref::M6531, L, lo);
         if (got != want)
